@@ -53,3 +53,26 @@ def _(dataset, mask, no_data_pixels, width, height, window):
             if (mask is not None and rasterio_open(mask).read(1, window=window)[y, x] != 0)
             else dataset.attrs["valid_pixels"])
         for y in range(height) for x in range(width))))
+
+
+# C16 "the disparity variable is the [min, max] pair broadcast ...": add_disparity with a pair of integers, for every image size
+@contract("pandora.img_tools.add_disparity", props=["C16"])
+def _(dataset, disparity, window):
+    types(dataset={"vars": {"im": "f32[:,:]"}, "coords": {"row": "i64[:]", "col": "i64[:]"}, "dims": {"im": ["row", "col"]},
+                   "attrs": {"no_data_img": "int"}, "sizes": {"row": "im.0", "col": "im.1"}},
+          disparity="opaque", window="opaque", result="opaque")
+    type_cases(disparity=[None, "i64[2]"])
+    option(no_fuzz=True)
+    raises_never()
+    ensures("no_disparity_no_variable", ("disparity" not in result.data_vars and result.attrs["disparity_source"] is None)
+            if disparity is None else True)
+    ensures("pair_broadcast",
+            (result["disparity"].data.shape[0] == 2 and result["disparity"].data.shape[1] == dataset["im"].data.shape[0]
+             and result["disparity"].data.shape[2] == dataset["im"].data.shape[1]
+             and all(result["disparity"].data[0, r, c] == disparity[0] and result["disparity"].data[1, r, c] == disparity[1]
+                     for r in range(dataset["im"].data.shape[0]) for c in range(dataset["im"].data.shape[1]))
+             and result.coords["band_disp"].data.shape[0] == 2
+             and result.coords["band_disp"].data[0] == "min" and result.coords["band_disp"].data[1] == "max")
+            if disparity is not None else True)
+    ensures("image_untouched", all(eq(result["im"].data[r, c], old(dataset["im"].data)[r, c])
+                                   for r in range(dataset["im"].data.shape[0]) for c in range(dataset["im"].data.shape[1])))
